@@ -333,8 +333,7 @@ Definition step (st : state) (o : op) : res state :=
   | OFromBv _ cs => ret (push_reg st (encode B cs))
   | OXlate m d =>
       do s <- slice_of st d;
-      let to_amino (c : bits) : res N :=
-        do _ <- assert (slen C c =? 3); do v <- to_u8 c; un_bits amino_codec v in
+      let to_amino := SeqModel.to_amino C amino_codec in
       match m with
       | 2%N => do a <- to_amino s; ret (emit st [a])
       | _ =>
